@@ -371,7 +371,8 @@ func (m *Variant) Encode() ([]byte, error) {
 
 // encode recursively writes the values to the buffer.
 func (m *Variant) encode(buf *Buffer, val reflect.Value) {
-	if val.Kind() != reflect.Slice || m.Type() == TypeIDByteString {
+	// a []byte is one ByteString value, every other slice is an array
+	if val.Kind() != reflect.Slice || val.Type() == reflect.TypeOf([]byte(nil)) {
 		m.encodeValue(buf, val.Interface())
 		return
 	}
@@ -478,7 +479,8 @@ func sliceDim(val reflect.Value) (typ reflect.Type, dim []int32, count int32, er
 	}
 
 	// check that inner slices all have the same length
-	if val.Index(0).Kind() == reflect.Slice {
+	// (the elements of an array of ByteString are values, not rows)
+	if val.Index(0).Kind() == reflect.Slice && val.Index(0).Type() != reflect.TypeOf([]byte(nil)) {
 		for i := 0; i < val.Len(); i++ {
 			if val.Index(i).Len() != val.Index(0).Len() {
 				return nil, nil, 0, errUnbalancedSlice
